@@ -5,7 +5,9 @@ pub mod c01;
 pub mod c02;
 pub mod c03;
 pub mod c04;
+pub mod assets;
 pub mod c17;
+pub mod c18;
 pub mod damage;
 
 use crate::harness::{Cfg, RunResult, Tier};
@@ -30,9 +32,10 @@ pub enum Body {
     C01(c01::C01Doc),
     C02(c02::C02Doc),
     C17(c17::C17Doc),
+    C18(c18::C18Doc),
 }
 
-pub const PROPS: [&str; 5] = ["C01", "C02", "C03", "C04", "C17"];
+pub const PROPS: [&str; 6] = ["C01", "C02", "C03", "C04", "C17", "C18"];
 
 pub fn generate(prop: &str, seed: u64, tier: Tier) -> Doc {
     match prop {
@@ -41,6 +44,7 @@ pub fn generate(prop: &str, seed: u64, tier: Tier) -> Doc {
         "C01" => c01::generate(seed, tier),
         "C02" => c02::generate(seed, tier),
         "C17" => c17::generate(seed, tier),
+        "C18" => c18::generate(seed, tier),
         _ => panic!("HARNESS: unknown property {}", prop),
     }
 }
@@ -53,6 +57,7 @@ pub fn directed(prop: &str) -> Vec<Doc> {
         "C01" => c01::directed(),
         "C02" => c02::directed(),
         "C17" => c17::directed(),
+        "C18" => c18::directed(),
         _ => vec![],
     }
 }
@@ -64,6 +69,7 @@ pub fn run_doc(doc: &Doc, trace: bool) -> RunResult {
         Body::C01(b) => c01::run(doc, b, trace),
         Body::C02(b) => c02::run(doc, b, trace),
         Body::C17(b) => c17::run(doc, b, trace),
+        Body::C18(b) => c18::run(doc, b, trace),
     }
 }
 
@@ -128,6 +134,13 @@ pub fn shrink_candidates(doc: &Doc) -> Vec<Doc> {
                 out.push(d);
             }
         }
+        Body::C18(b) => {
+            for nb in c18::shrink(b) {
+                let mut d = doc.clone();
+                d.body = Body::C18(nb);
+                out.push(d);
+            }
+        }
         Body::C03(b) => {
             for nb in c03::shrink(b) {
                 if !c03::well_formed(&nb) {
@@ -149,6 +162,7 @@ pub fn probe_names(prop: &str) -> &'static [&'static str] {
         "C01" => &c01::PROBES,
         "C02" => &c02::PROBES,
         "C17" => &c17::PROBES,
+        "C18" => &c18::PROBES,
         _ => &[],
     }
 }
@@ -161,6 +175,7 @@ pub fn mandatory_probes(prop: &str) -> Vec<usize> {
         "C01" => (0..c01::PROBES.len()).collect(),
         "C02" => (0..c02::PROBES.len()).collect(),
         "C17" => (0..c17::PROBES.len()).collect(),
+        "C18" => (0..c18::PROBES.len() - 1).collect(),
         _ => vec![],
     }
 }
